@@ -82,4 +82,14 @@ PROPS = {
             "CBMC/Kani semantics of Rust MIR; unwinding assertions enabled",
         ],
     },
+    "C02": {
+        "level": "translation_validation",
+        "quick": {"kani": [], "e2": {"args": [], "wall_cap": 3000}},
+        "thorough": {"kani": [], "e2": {"args": [], "wall_cap": 14000}},
+        "rule": ("one 'program' = one distinct (cached plan, semi-naive variant set) emitted by the REAL lowering + planner + "
+                 "variant construction for an enumerated rule-body shape x size profile x {:no-decomp on/off}; for each, two z3 "
+                 "queries over ALL databases within the bounds: no spurious match, no lost new match; non-trivial iff z3 also "
+                 "finds a database with a new match (assumptions satisfiable)"),
+        "assumptions": [],
+    },
 }
